@@ -285,15 +285,12 @@ def keyword_root_cause(err, wit_text, keywords, loc_re=r"^(\S+?):(\d+):(\d+): (?
             continue
         if m.group(1):
             path, ln, col = m.group(1), int(m.group(2)), int(m.group(3))
-            cands = [token_at(path, ln, col)]
         else:
             path, ln, col = "", 0, 0
-            cands = []
-        # the caret may sit just behind the offending word
-        for back in range(1, 4):
-            if path:
-                cands.append(token_at(path, ln, col - back))
-        cands += re.findall(r"[`'‘]([A-Za-z_][A-Za-z0-9_]*)['’`]", line)
+        # only words the compiler quotes, or words standing where a declared name
+        # stands on the offending line, count (a keyword used *as* a keyword at
+        # the error position is not evidence of a naming problem)
+        cands = re.findall(r"[`'‘]([A-Za-z_][A-Za-z0-9_]*)['’`]", line)
         if path:
             cands += identifier_position_words(source_line(path, ln))
         for tok in cands:
